@@ -163,6 +163,10 @@ func Bootstrap(id peer.ID, host host.Host, rt routing.Routing, cfg BootstrapConf
 	if cfg.loadBackupBootstrapPeers != nil {
 		doneWithRound <- struct{}{} // wait for first bootstrap
 		startSavePeersAsTemporaryBootstrapProc(ctx, cfg, host)
+	} else {
+		// Nobody waits for the first round: release the periodic process,
+		// otherwise it would block on doneWithRound forever.
+		close(doneWithRound)
 	}
 
 	return &bootstrapCloser{
